@@ -182,6 +182,122 @@ var subC06 = harness.NewSub("c06-datagram-split-local-all-or-nothing", func(c c0
 	return nil
 })
 
+// ---- malformed frames that are well framed ------------------------------------------------
+
+// c06Bad is a single well-framed frame whose inner count / length fields claim more than the
+// frame holds (or, for REMB, whose SSRC count disagrees with the frame length). Such a frame
+// is malformed however large it is, so it must be rejected - alone and inside a datagram.
+type c06Bad struct {
+	Why   string
+	Kind  m.Kind
+	Frame m.Bytes
+}
+
+var subC06Bad = harness.NewSub("c06-inconsistent-frame-rejected", func(c c06Bad, _ harness.Dialect) error {
+	if fr, err := m.SplitFrames(c.Frame); err != nil || len(fr) != 1 {
+		return fmt.Errorf("GENERATOR BUG: not one well-framed frame: %v", err)
+	}
+	recv := conv.New(c.Kind)
+	if err := recv.Unmarshal(exactCopy(c.Frame)); err == nil {
+		return fmt.Errorf("%s accepted a malformed frame (%s) of %d octets through its own decoder\nframe: %s", conv.GoType(c.Kind), c.Why, len(c.Frame), hexs(c.Frame))
+	}
+	ps, err := rtcp.Unmarshal(exactCopy(c.Frame))
+	if err == nil || ps != nil {
+		return fmt.Errorf("rtcp.Unmarshal accepted a malformed %s frame (%s) of %d octets: %d packets, error %v\nframe: %s", c.Kind, c.Why, len(c.Frame), len(ps), err, hexs(c.Frame))
+	}
+	// and inside a datagram, between two valid frames
+	pre := []byte{0x81, 206, 0, 2, 0, 0, 0, 1, 0, 0, 0, 2}
+	dg := append(append(append([]byte(nil), pre...), c.Frame...), pre...)
+	ps, err = rtcp.Unmarshal(dg)
+	if err == nil || ps != nil {
+		return fmt.Errorf("a datagram containing a malformed %s frame (%s) was accepted: %d packets\nframe: %s", c.Kind, c.Why, len(ps), hexs(c.Frame))
+	}
+	return nil
+})
+
+func genC06Bad(t *rapid.T) c06Bad {
+	fix := func(b []byte) []byte {
+		w := len(b)/4 - 1
+		b[2], b[3] = byte(w>>8), byte(w)
+		return b
+	}
+	switch rapid.IntRange(0, 3).Draw(t, "bad.kind") {
+	case 0:
+		// REMB: Num SSRC disagrees with the frame length (surplus words), at every size class
+		p := gen.PacketOf(t, m.KREMB)
+		e, _ := m.Encode(p, nil)
+		k := rapid.SampledFrom([]int{1, 2, 3, 255, 16383 - len(e.B)/4, 16384 - len(e.B)/4, 16384, 16385, 16384 + 1, 32768, 49152}).Draw(t, "surplus.words")
+		if k < 1 {
+			k = 1
+		}
+		if len(e.B)/4+k > 65536 {
+			k = 65536 - len(e.B)/4
+		}
+		b := append(e.B, make([]byte, 4*k)...)
+		return c06Bad{Why: fmt.Sprintf("REMB with %d surplus words after its SSRC list", k), Kind: m.KREMB, Frame: fix(b)}
+	case 1:
+		// XR: the last block's length field runs past the end of the frame
+		x := gen.XR(t, 4)
+		for len(x.Blocks) == 0 {
+			x = gen.XR(t, 4)
+		}
+		e, _ := m.Encode(m.Packet{Kind: m.KXR, XR: x}, nil)
+		b := e.B
+		// find the last block header by walking
+		pos, last := 8, 8
+		for pos+4 <= len(b) {
+			last = pos
+			pos += 4 * (int(b[pos+2])<<8 | int(b[pos+3]) + 1)
+		}
+		words := int(b[last+2])<<8 | int(b[last+3])
+		extra := rapid.SampledFrom([]int{1, 2, 3, 100, 65535 - words}).Draw(t, "xr.extra")
+		if words+extra > 65535 {
+			extra = 65535 - words
+		}
+		if extra < 1 {
+			extra = 1
+		}
+		nw := words + extra
+		b[last+2], b[last+3] = byte(nw>>8), byte(nw)
+		return c06Bad{Why: fmt.Sprintf("XR block (BT %d) whose length field claims %d more words than the frame holds", b[last], extra), Kind: m.KXR, Frame: b}
+	default:
+		// CCFB (in the form the library reads): the last report block announces more metric
+		// blocks than fit before the report timestamp
+		v := gen.CCFB(t)
+		for len(v.Blocks) == 0 {
+			v = gen.CCFB(t)
+		}
+		if len(v.Blocks) > 2 {
+			v.Blocks = v.Blocks[:2]
+		}
+		for i := range v.Blocks {
+			if len(v.Blocks[i].Metrics) > 40 {
+				v.Blocks[i].Metrics = v.Blocks[i].Metrics[:40]
+			}
+			if len(v.Blocks[i].Metrics) == 1 {
+				v.Blocks[i].Metrics = nil
+			}
+			v.Blocks[i].BeginSeq = uint16(rapid.IntRange(0, 100).Draw(t, "begin"))
+		}
+		e, _ := m.Encode(m.Packet{Kind: m.KCCFB, CCFB: v}, &m.EncOpts{D: gen.PionDialect})
+		b := e.B
+		lastBlk := v.Blocks[len(v.Blocks)-1]
+		n := len(lastBlk.Metrics)
+		size := 8 + 2*(n+n%2)
+		off := len(b) - 4 - size // start of the last block
+		// pion's convention: field = n-1 (0 for empty); announce at least two more than present
+		claim := rapid.SampledFrom([]int{n + 2, n + 3, n + 100, 16384, 0xFFFF - int(lastBlk.BeginSeq), 0xFFFF}).Draw(t, "ccfb.claim")
+		if claim > 0xFFFF-int(lastBlk.BeginSeq) {
+			claim = 0xFFFF - int(lastBlk.BeginSeq) // stay clear of the listed seq-wrap rejection: this is about size
+		}
+		if claim < n+2 {
+			claim = n + 2
+		}
+		b[off+6], b[off+7] = byte(claim>>8), byte(claim)
+		return c06Bad{Why: fmt.Sprintf("CCFB report block announcing num_reports field %d with %d metric blocks present", claim, n), Kind: m.KCCFB, Frame: b}
+	}
+}
+
 // restConsuming: decoders that take "the rest of the buffer" (extensions, trailing timestamp, block lists).
 func restConsuming(f []byte) bool {
 	if len(f) < 2 {
@@ -275,6 +391,17 @@ func genC06Frame(t *rapid.T) ([]byte, bool) {
 
 func TestC06(t *testing.T) {
 	defer harness.Uncaught(t)
+	harness.RapidCheck(t, harness.Scale(1500, 12000), 66, func(rt *rapid.T) {
+		c := genC06Bad(rt)
+		harness.Eval(subC06Bad.Name, 1)
+		harness.Class("inconsistent:"+string(c.Kind), 1)
+		h := harness.HashBytes(c.Frame)
+		harness.NonTrivialHash(h)
+		if len(c.Frame) <= 80 {
+			harness.Sample(subC06Bad.Name, h, c)
+		}
+		subC06Bad.Check(rt, c)
+	})
 	harness.RapidCheck(t, harness.Scale(5000, 40000), 6, func(rt *rapid.T) {
 		n := rapid.IntRange(1, 12).Draw(rt, "nframes")
 		var c c06Case
